@@ -3,6 +3,7 @@ package store
 import (
 	"context"
 	"fmt"
+	"io"
 	"reflect"
 	"strconv"
 	"strings"
@@ -13,6 +14,8 @@ import (
 	"github.com/freeconf/yang/val"
 
 	"verif/sim/kit"
+	"verif/sim/model"
+	"verif/sim/schema"
 )
 
 // Hook variants. nodeutil.Node and nodeutil.Reflect let an application
@@ -22,6 +25,22 @@ import (
 // mask selects; everything observable must stay exactly as without hooks, so
 // the ordinary oracles apply unchanged while the library's hook plumbing
 // (which callback is consulted for which request) is exercised.
+
+// SplitWrap separates a "+wrap:<name>" suffix (the root node handed to the
+// library sits inside one of the library's own pass-through wrappers) and a
+// "tee:" prefix (two equal stores behind a nodeutil.Tee) from the rest.
+func SplitWrap(kind string) (rest, wrap string, tee bool) {
+	rest = kind
+	if i := strings.Index(rest, "+wrap:"); i >= 0 {
+		wrap = rest[i+len("+wrap:"):]
+		rest = rest[:i]
+	}
+	if strings.HasPrefix(rest, "tee:") {
+		tee = true
+		rest = rest[len("tee:"):]
+	}
+	return
+}
 
 // SplitKind separates "base+hooks:mask" into base kind and mask.
 func SplitKind(kind string) (base string, mask uint32, err error) {
@@ -40,9 +59,16 @@ func SplitKind(kind string) (base string, mask uint32, err error) {
 // KeyName is the store kind as it appears in finding keys: the hook mask is
 // dropped so that a finding's identity does not depend on the drawn subset.
 func KeyName(kind string) string {
-	base, mask, _ := SplitKind(kind)
+	rest, wrap, tee := SplitWrap(kind)
+	base, mask, _ := SplitKind(rest)
 	if mask != 0 {
-		return base + "+hooks"
+		base += "+hooks"
+	}
+	if wrap != "" {
+		base += "+" + wrap
+	}
+	if tee {
+		base = "tee:" + base
 	}
 	return base
 }
@@ -65,6 +91,14 @@ func Variant(r *kit.Rng, base string) string {
 		n = len(ReflectHookNames)
 	default:
 		return base
+	}
+	switch r.Intn(12) {
+	case 0:
+		// the library's own pass-through wrappers around the root node
+		return base + "+wrap:" + r.Pick([]string{"dump", "trace", "extend"})
+	case 1:
+		// two equal stores behind nodeutil.Tee: every write must reach both
+		return "tee:" + base
 	}
 	if !r.Chance(1, 3) {
 		return base
@@ -186,4 +220,61 @@ func hookReflect(mask uint32) nodeutil.Reflect {
 		})
 	}
 	return rf
+}
+
+// Wrapped puts one of the library's pass-through wrappers around the root
+// node of a store.
+type Wrapped struct {
+	Store
+	wrap string
+}
+
+func (w *Wrapped) Kind() string { return w.Store.Kind() + "+" + w.wrap }
+func (w *Wrapped) Root() node.Node {
+	n := w.Store.Root()
+	switch w.wrap {
+	case "dump":
+		return nodeutil.Dump(n, io.Discard)
+	case "trace":
+		return nodeutil.Trace(n, io.Discard)
+	case "extend":
+		return &nodeutil.Extend{Base: n, OnExtend: func(e *nodeutil.Extend, sel *node.Selection, m meta.HasDefinitions, child node.Node) (node.Node, error) {
+			return e.Extend(child), nil
+		}}
+	}
+	return n
+}
+
+// TeeStore is two equal stores behind nodeutil.Tee{A,B}. Observing it walks
+// both: they must hold the same content.
+type TeeStore struct {
+	a, b Store
+}
+
+func (t *TeeStore) Kind() string           { return "tee:" + t.a.Kind() }
+func (t *TeeStore) Caps() schema.Caps      { return t.a.Caps() }
+func (t *TeeStore) GenOpts() model.GenOpts { return t.a.GenOpts() }
+func (t *TeeStore) ListsAsSets() bool      { return t.a.ListsAsSets() }
+func (t *TeeStore) ZeroIsUnset() bool      { return t.a.ZeroIsUnset() }
+func (t *TeeStore) RealCode() bool         { return true }
+func (t *TeeStore) Load(s *schema.Node, tr *model.Tree) error {
+	if err := t.a.Load(s, tr); err != nil {
+		return err
+	}
+	return t.b.Load(s, tr)
+}
+func (t *TeeStore) Root() node.Node { return nodeutil.Tee{A: t.a.Root(), B: t.b.Root()} }
+func (t *TeeStore) Walk() (*model.Tree, error) {
+	wa, err := t.a.Walk()
+	if err != nil {
+		return nil, err
+	}
+	wb, err := t.b.Walk()
+	if err != nil {
+		return nil, fmt.Errorf("branch B of the tee: %w", err)
+	}
+	if d := model.Diff(wa.Clone().DropEmptyLists(), wb.Clone().DropEmptyLists(), t.a.ListsAsSets()); d != "" {
+		return nil, fmt.Errorf("the two branches of the tee hold different content at %s (A: %s  B: %s)", d, wa.String(), wb.String())
+	}
+	return wa, nil
 }
